@@ -32,17 +32,18 @@ def r1_map_access_total(ctx, rep, R='C20.R1'):
     m = ctx.model
     cls = m.cls('digraph.DiGraph')
     total, partial = [], []
+    from .common import alias_dotted, guard_literals
     for fi in cls.methods.values():
         for n in ast.walk(fi.node):
             if isinstance(n, ast.Call) and isinstance(n.func, ast.Attribute) and \
-                    n.func.attr == 'get' and dotted(n.func.value) == 'self._neighbors':
+                    n.func.attr == 'get' and alias_dotted(fi.node, n.func.value) == 'self._neighbors':
                 total.append((fi, n))
-            if isinstance(n, ast.Subscript) and dotted(n.value) == 'self._neighbors' and \
+            if isinstance(n, ast.Subscript) and alias_dotted(fi.node, n.value) == 'self._neighbors' and \
                     isinstance(n.ctx, ast.Load):
                 guarded = any(isinstance(e, ast.Compare) and isinstance(e.ops[0], ast.In) and pos and
-                              dotted(e.comparators[0]) == 'self._neighbors' and
+                              alias_dotted(fi.node, e.comparators[0]) == 'self._neighbors' and
                               norm(e.left) == norm(n.slice)
-                              for e, pos in path_literals(n, fi.node))
+                              for e, pos in guard_literals(ctx, fi, n))
                 (total if guarded else partial).append((fi, n))
     rep.floor(R, len(total) + len(partial), 3, 'reads of the neighbour map')
     if len(total) >= 1:
@@ -109,8 +110,9 @@ def r2_stated_invariants(ctx, rep, R='C20.R2'):
     # yield under the root test
     ys = [n for n in ast.walk(fi.node) if isinstance(n, ast.Yield)]
     oky = bool(ys)
+    from .common import guard_literals
     for y in ys:
-        lits = path_literals(y._parent, fi.node)
+        lits = guard_literals(ctx, fi, y)
         root = [(e, pos) for e, pos in lits if isinstance(e, ast.Compare) and isinstance(e.ops[0], ast.Eq)
                 and {norm(e.left).split('.')[-1], norm(e.comparators[0]).split('.')[-1]} == {'low', 'dfs'}]
         oky = oky and len(root) == 1 and root[0][1] is True
@@ -136,8 +138,12 @@ def r2_stated_invariants(ctx, rep, R='C20.R2'):
     # every neighbour of a node is scheduled
     ext = [c for c in own_calls(fi.node) if isinstance(c.func, ast.Attribute) and c.func.attr == 'extend'
            and dotted(c.func.value) == 'visits']
-    oke = len(ext) == 1 and 'self._neighbors' in norm(ext[0].args[0]) and \
-        not isinstance(ext[0].args[0], (ast.ListComp, ast.GeneratorExp, ast.Subscript))
+    from .common import alias_dotted
+    a0 = ext[0].args[0] if len(ext) == 1 and ext[0].args else None
+    oke = a0 is not None and not isinstance(a0, (ast.ListComp, ast.GeneratorExp, ast.Subscript)) and (
+        (isinstance(a0, ast.Call) and isinstance(a0.func, ast.Attribute) and a0.func.attr == 'get' and
+         alias_dotted(fi.node, a0.func.value) == 'self._neighbors') or
+        alias_dotted(fi.node, a0) == 'self._neighbors')
     rep.check(oke, R, 'all neighbours of a node are scheduled for a visit',
               'not every neighbour is visited', key='neighbours', func=fi.qualname,
               where=ctx.where(fi, fi.node))
@@ -146,22 +152,62 @@ def r2_stated_invariants(ctx, rep, R='C20.R2'):
 def r3_default_mode(ctx, rep, R='C20.R3'):
     rep.rule(R, 'default mode: a component is dropped only if it has exactly one node, trivial '
              'components were not requested, and that node is not its own neighbour')
+    from .common import alias_dotted, guard_literals, single_assignments
     fi = ctx.model.func(FN)
-    conts = [n for n in ast.walk(fi.node) if isinstance(n, ast.Continue)]
-    drops = []
-    for c in conts:
-        lits = path_literals(c, fi.node)
-        txt = [(norm(e), pos) for e, pos in lits]
-        if any('scc' in t for t, p in txt):
-            drops.append(txt)
-    ok = len(drops) == 1
+    g = ctx.cfg(fi)
+    ys = [n for n in ast.walk(fi.node) if isinstance(n, ast.Yield)]
+    ok = len(ys) == 1
+    why = 'expected one yield site'
     if ok:
-        d = drops[0]
-        ok = ('len(scc) == 1', True) in d and ('trivial', False) in d and \
-            any(t.startswith('n in self._neighbors') and p is False for t, p in d)
-    rep.check(ok, R, 'dropped iff len(scc) == 1 and not trivial and n not in neighbours(n)',
-              'components are dropped under %s' % drops, key='default-mode', func=fi.qualname,
-              where=ctx.where(fi, fi.node))
+        # the component is yielded unless (len(scc) == 1 and not trivial and node not its own
+        # neighbour): read the guard of the yield relative to the root test
+        lits = guard_literals(ctx, fi, ys[0])
+        txt = []
+        for e, pos in lits:
+            t = norm(e)
+            if 'low' in t and 'dfs' in t:
+                continue
+            if t in ('unvisited', 'visits') or 'rtn_marker' in t:
+                continue
+            txt.append((e, pos))
+        # expected: exactly one literal: NOT (len(scc) == 1 and not trivial and X not in nb(X))
+        ok = len(txt) == 1 and txt[0][1] is False and isinstance(txt[0][0], ast.BoolOp) and \
+            isinstance(txt[0][0].op, ast.And)
+        why = 'the yield is guarded by %s' % [(norm(e), p) for e, p in txt]
+        parts = []
+        if ok:
+            from sa.variance import split_literals
+            parts = split_literals(txt[0][0], True)
+        else:
+            # nested form: if len(scc) == 1 and not trivial: ... if n not in nb: continue
+            conts = [n for n in ast.walk(fi.node) if isinstance(n, ast.Continue)]
+            for c in conts:
+                cl = [(e, pos) for e, pos in guard_literals(ctx, fi, c)
+                      if 'scc' in norm(e) or 'trivial' in norm(e) or '_neighbors' in
+                      (alias_dotted(fi.node, e.comparators[0].func.value) or ''
+                       if isinstance(e, ast.Compare) and isinstance(e.comparators[0], ast.Call) and
+                       isinstance(e.comparators[0].func, ast.Attribute) else '')]
+                if any('len(scc)' in norm(e) for e, pos in cl):
+                    parts = cl
+                    ok = True
+        env = single_assignments(fi.node)
+        sizes = [(e, pos) for e, pos in parts if norm(e) == 'len(scc) == 1']
+        triv = [(e, pos) for e, pos in parts if norm(e) == 'trivial']
+        selfn = []
+        for e, pos in parts:
+            if isinstance(e, ast.Compare) and isinstance(e.ops[0], ast.In) and \
+                    isinstance(e.comparators[0], ast.Call) and \
+                    isinstance(e.comparators[0].func, ast.Attribute) and \
+                    e.comparators[0].func.attr == 'get' and \
+                    alias_dotted(fi.node, e.comparators[0].func.value) == 'self._neighbors':
+                key = e.comparators[0].args[0]
+                same = norm(key) == norm(e.left)
+                selfn.append((same, pos))
+        ok = ok and len(sizes) == 1 and sizes[0][1] is True and len(triv) == 1 and triv[0][1] is False \
+            and len(selfn) == 1 and selfn[0] == (True, False) and len(parts) == 3
+        why = 'components are dropped under %s' % [(norm(e), p) for e, p in parts]
+    rep.check(ok, R, 'dropped iff len(scc) == 1 and not trivial and n not in neighbours(n)', why,
+              key='default-mode', func=fi.qualname, where=ctx.where(fi, fi.node))
     d0 = fi.node.args.defaults
     okd = len(d0) == 1 and isinstance(d0[0], ast.Constant) and d0[0].value is False
     rep.check(okd, R, 'trivial defaults to False', 'the default mode changed', key='default-arg',
